@@ -3,6 +3,7 @@ import Req.Client.HeaderSort
 import Req.H2.Fields
 import Req.Driver.WireUtil
 import Req.H2.HeaderBlock
+import Req.Client.Resend
 /-! Driver lanes of C16. -/
 namespace Req.Driver.L.C16
 open Req.Proto
@@ -88,8 +89,52 @@ def laneHFrames : List String → String
     | _, _, _, _ => "bad-op"
   | _ => "bad-op"
 
+def decodeKind (kind p : String) : Option Req.Resend.Kind :=
+  match kind, decodeHex p with
+  | "same", some _ => some .same
+  | "digest", some a => some (.digest a)
+  | "redir0", some ref => some (.redirect false ref)
+  | "redir1", some ref => some (.redirect true ref)
+  | _, _ => none
+
+def showWErr : Req.H1.WErr → String
+  | .nonAsciiHost => "err:outside"
+  | .invalidHostProxy => "err:hostproxy"
+  | .ctlInURI => "err:ctl"
+  | .contentLengthNilBody => "err:clnil"
+  | .bodyLength => "err:bodylen"
+
+/-- `c16resend <same|digest|redir0|redir1> <param> <disableCompression> <disableKeepAlives>
+<method> <rawurl> <host> <hdr1> <cl> <hasBody> <body> <close>`: the bytes on an HTTP/1.1 connection
+for a SECOND send whose header map derives from the FIRST request's header map `hdr1` by the given
+mechanism (`same` with the first request's own attributes = the first send itself); method, URL,
+Host, body are those of the request being written; the transport's extra headers are computed
+(`transportExtra`). Exact in normal mode, `Wire.showOrdered` in header-order mode. -/
+def laneResend : List String → String
+  | [kind, p, dc, dk, m, raw, host, hdr, cl, hb, body, close] =>
+    match decodeKind kind p, Wire.decodeBool dc, Wire.decodeBool dk, decodeHex m, decodeHex raw,
+          decodeHex host, Wire.decodeHdr hdr, decodeInt cl, Wire.decodeBool hb, Wire.decodeBody body,
+          Wire.decodeBool close with
+    | some kind, some dc, some dk, some m, some raw, some host, some hdr, some cl, some hb, some body,
+      some close =>
+      match Req.Url.parse raw with
+      | .error _ => "bad-op"
+      | .ok u =>
+        let r0 : Req.H1.WReq := { method := m, url := u, host := host,
+                                  header := Req.Resend.secondHeader kind hdr, contentLength := cl,
+                                  hasBody := hb, body := body, close := close }
+        let r := { r0 with extra := Req.Resend.transportExtra dc dk r0 }
+        match Req.H1.serializeH1 r with
+        | .error e => showWErr e
+        | .ok wire =>
+          let order := Req.H1.orderList r.header
+          if order.isEmpty then "ok " ++ Wire.showBlob wire else Wire.showOrdered wire order
+    | _, _, _, _, _, _, _, _, _, _, _ => "bad-op"
+  | _ => "bad-op"
+
 def lanes : List (String × (List String → String)) := [
   ("c16hframes", laneHFrames),
+  ("c16resend", laneResend),
   ("sort", laneSort),
   ("c16fields", laneFields)
 ]
